@@ -136,3 +136,51 @@ V(id='c16-benign-reorder', prop='C16', file='mpmath/libmp/libmpi.py',
   old="    if mpf_lt(sb, ta): return True\n    if mpf_ge(sa, tb): return False\n    return None",
   new="    if mpf_ge(sa, tb): return False\n    if mpf_gt(ta, sb): return True\n    return None",
   expect='silent')
+
+# ---------------------------------------------------------------- C05 -------
+V(id='c05-hash-noeffect', prop='C05', file='mpmath/libmp/libmpf.py',
+  old="        if h == -1: h = -2\n", new="        if h == -1: h == -2\n",
+  expect='fire:G-R2:mpf_hash')
+V(id='c05-mpc-unsigned', prop='C05', file='mpmath/libmp/libmpc.py',
+  old="        if h >= 2**(sys.hash_info.width-1):\n            h -= 2**sys.hash_info.width\n",
+  new="", expect='fire:G-R1:mpc_hash')
+V(id='c05-mpc-wrong-threshold', prop='C05', file='mpmath/libmp/libmpc.py',
+  old="        if h >= 2**(sys.hash_info.width-1):", new="        if h > 2**(sys.hash_info.width-1):",
+  expect='fire:G-R1:mpc_hash')
+V(id='c05-mpc-no-minus-one', prop='C05', file='mpmath/libmp/libmpc.py',
+  old="        if h == -1: h = -2\n        return int(h)", new="        return int(h)",
+  expect='fire:G-R1:mpc_hash')
+V(id='c05-mpc-imag-coefficient', prop='C05', file='mpmath/libmp/libmpc.py',
+  old="h = mpf_hash(re) + sys.hash_info.imag * mpf_hash(im)",
+  new="h = mpf_hash(im) + sys.hash_info.imag * mpf_hash(re)",
+  expect='fire:G-R3:mpc_hash')
+V(id='c05-hash-wrong-exponent-reduction', prop='C05', file='mpmath/libmp/libmpf.py',
+  old="        h = (h << sexp) % HASH_MODULUS\n", new="        h = (h << sexp)\n",
+  expect='fire:G-R1:mpf_hash')
+V(id='c05-lt-dispatch', prop='C05', file='mpmath/ctx_mp_python.py',
+  old="    def __le__(s, t): return s._cmp(t, mpf_le)", new="    def __le__(s, t): return s._cmp(t, mpf_lt)",
+  expect='fire:G-R4:__le__')
+V(id='c05-ge-kernel-op', prop='C05', file='mpmath/libmp/libmpf.py',
+  old="    return mpf_cmp(s, t) >= 0", new="    return mpf_cmp(s, t) > 0",
+  expect='fire:G-R4:mpf_ge')
+V(id='c05-nan-guard-dropped', prop='C05', file='mpmath/libmp/libmpf.py',
+  old="def mpf_gt(s, t):\n    if s == fnan or t == fnan:\n        return False\n",
+  new="def mpf_gt(s, t):\n", expect='fire:G-R4:mpf_gt')
+V(id='c05-eq-int-rounded', prop='C05', file='mpmath/ctx_mp_python.py',
+  old="    'return mpf_eq(sval, from_int(other))',", new="    'return mpf_eq(sval, from_int(other, prec, rounding))',",
+  expect='fire:G-R4:__eq__')
+V(id='c05-cmp-float-rounded', prop='C05', file='mpmath/ctx_mp_python.py',
+  old="""    def mpf_convert_rhs(cls, x):
+        if isinstance(x, int_types): return from_int(x)
+        if isinstance(x, float): return from_float(x)""",
+  new="""    def mpf_convert_rhs(cls, x):
+        if isinstance(x, int_types): return from_int(x)
+        if isinstance(x, float): return from_float(x, cls.context.prec)""",
+  expect='fire:G-R4:mpf_convert_rhs')
+V(id='c05-mpc-hash-dropped', prop='C05', file='mpmath/ctx_mp_python.py',
+  old="    def __hash__(s):\n        return mpc_hash(s._mpc_)\n", new="",
+  expect='fire:G-R3:_mpc')
+V(id='c05-benign-hash-refactor', prop='C05', file='mpmath/libmp/libmpc.py',
+  old="        if h == -1: h = -2\n        return int(h)",
+  new="        if h == -1:\n            return -2\n        return int(h)",
+  expect='silent')
